@@ -673,6 +673,34 @@ func emitProgram(i int, c *progCase, rng *rand.Rand) (string, int) {
 			w("\t\tif err != nil {\n\t\t\tev[\"err\"] = fmt.Sprintf(\"%%T %%v\", err, err)\n\t\t}\n\t\th.Emit(ev)\n\t}\n")
 		}
 	}
+	// the error reply of a method must arrive as its generated type through every client stub, not only Call
+	for _, p := range plans {
+		if !p.overridden || p.errName == "" {
+			continue
+		}
+		for _, via := range []string{"send", "upgrade"} {
+			ncalls++
+			w("\t{\n\t\th.SetMode(%q, \"error\")\n", p.name)
+			args := ""
+			for k, f := range p.in {
+				w("\t\tvar a%d %s\n\t\th.Decode(%q, &a%d)\n", k, goType(f.T[0]), p.inWire[k], k)
+				args += fmt.Sprintf(", a%d", k)
+			}
+			blanks := strings.Repeat("_, ", len(p.out))
+			if via == "send" {
+				w("\t\tvar err error\n\t\trecv, serr := q.%s().Send(ctx, conn, 0%s)\n\t\tif serr == nil {\n\t\t\t%s_, err = recv(ctx)\n\t\t} else {\n\t\t\terr = serr\n\t\t}\n", p.name, args, blanks)
+			} else {
+				w("\t\tvar err error\n\t\trecv, serr := q.%s().Upgrade(ctx, conn%s)\n\t\tif serr == nil {\n\t\t\t%s_, _, err = recv(ctx)\n\t\t} else {\n\t\t\terr = serr\n\t\t}\n", p.name, args, blanks)
+			}
+			w("\t\tte, isT := err.(*q.%s)\n\t\tok := isT", p.errName)
+			for k, f := range p.errFields {
+				w(" && h.Equal(te.%s, a%d)", strings.Title(f.N), k)
+			}
+			w("\n\t\t_ = te\n\t\th.TakeFrames(\"c2s\"); h.TakeFrames(\"s2c\"); h.Seen(%q)\n", p.name)
+			w("\t\tev := map[string]interface{}{\"prog\": %d, \"method\": %q, \"mode\": \"error-%s\", \"result_ok\": ok}\n", i, p.name, via)
+			w("\t\tif err != nil {\n\t\t\tev[\"err\"] = fmt.Sprintf(\"%%T %%v\", err, err)\n\t\t}\n\t\th.Emit(ev)\n\t}\n")
+		}
+	}
 	// a more-call answered twice: both replies arrive as the values the implementation gave, and the first
 	// reply's values are not touched by the arrival of the second
 	for _, p := range plans {
